@@ -180,6 +180,8 @@ def field_kwargs(field, for_mutation=False):
     out = []
     attrs = field['attrs']
     for k in sorted(attrs):
+        if attrs[k] is None and not for_mutation:
+            continue
         out.append((k, pyval(attrs[k])))
     return out
 
